@@ -354,6 +354,7 @@ impl<T> Pool<T> {
         self.inner.semaphore.add_permits(1);
         #[cfg(deadpool_verif)]
         crate::verif::point("uadd.done");
+        self.inner.clean_up();
     }
 
     /// Removes an [`Object`] from this [`Pool`].
